@@ -75,10 +75,16 @@ def cases(tier: str, seed: int) -> list[dict]:
         for et, dim in [("TRI3", 2), ("QUAD4", 2), ("TETRA4", 3), ("HEXA8", 3)]:
             out.append({"an": "hyperelastic", "dim": dim, "et": et, "improper": bool(k % 2), "constr": "rebuilt"})
             k += 1
+        # fibre-reinforced law: the fibre and sheet directions are part of the configuration and rotate with the body
+        for et, dim, hl in [("TETRA4", 3, "holzapfel"), ("HEXA8", 3, "holzapfel"), ("TRI3", 2, "holzapfel"), ("TETRA4", 3, "mooney")]:
+            out.append({"an": "hyperelastic", "dim": dim, "et": et, "improper": bool(k % 2), "constr": "rebuilt", "law": hl})
+            k += 1
         for bdim in (2, 3):
             for theory in ("EB", "Timo"):
                 for et in gm.ET_1D:
                     out.append({"an": "beam", "dim": bdim, "et": et, "theory": theory, "improper": bool(k % 2), "frame": (k % 3 == 0), "dyn": (k % 4 == 0)})
+                    # the same with distributed loads along the members (consistent nodal loads of the member shape functions)
+                    out.append({"an": "beam", "dim": bdim, "et": et, "theory": theory, "improper": not bool(k % 2), "frame": (k % 3 != 1), "dyn": (k % 4 == 1), "line": True})
                     k += 1
     for i, c in enumerate(out):
         c["id"] = f"C10-{i:05d}-{c['an']}-{c['dim']}d-{c['et']}-{c.get('law', c.get('theory', ''))}-{'improper' if c['improper'] else 'proper'}"
@@ -188,8 +194,21 @@ def run_continuum(case, ctx, rng):
             l1, l2 = _law_pair(rng, dim, law, Q)
         else:
             K = float(rng.uniform(20, 80))
-            l1 = Models.HyperElastic.NeoHookean(dim, K=K)
-            l2 = Models.HyperElastic.NeoHookean(dim, K=K)
+            if law == "holzapfel":
+                T1 = rng.normal(size=3)
+                T2 = np.cross(T1, rng.normal(size=3))
+                if dim == 2:
+                    T1[2] = 0.0
+                    T2 = np.array([-T1[1], T1[0], 0.0])
+                cs = [float(x) for x in rng.uniform(2, 10, 8)]
+                mk = lambda a, b: Models.HyperElastic.HolzapfelOgden(dim, *cs, K=K, Mu1=3.0, Mu2=2.0, T1=a, T2=b)  # noqa: E731
+                l1, l2 = mk(T1, T2), mk(Q @ T1, Q @ T2)
+            elif law == "mooney":
+                l1 = Models.HyperElastic.MooneyRivlin(dim, K1=0.3 * K, K2=0.2 * K, K=K)
+                l2 = Models.HyperElastic.MooneyRivlin(dim, K1=0.3 * K, K2=0.2 * K, K=K)
+            else:
+                l1 = Models.HyperElastic.NeoHookean(dim, K=K)
+                l2 = Models.HyperElastic.NeoHookean(dim, K=K)
         s1, s2 = build(mesh, np.eye(dim), l1), build(mesh2, Qd, l2)
         with quiet():
             if case.get("dyn"):
@@ -255,7 +274,7 @@ def run_beam(case, ctx, rng):
     bdim, et, theory = case["dim"], case["et"], case["theory"]
     cls = "improper" if case["improper"] else "proper"
     frame = case["frame"]
-    key = f"C10/beam/{bdim}D/{theory}/{cls}/{'frame' if frame else 'member'}"
+    key = f"C10/beam/{bdim}D/{theory}/{cls}/{'frame' if frame else 'member'}" + ("/line-load" if case.get("line") else "")
     ctx.default_key = key
     b, h = float(rng.uniform(0.08, 0.2)), float(rng.uniform(0.08, 0.2))
     E, v = float(rng.uniform(1e3, 1e5)), float(rng.uniform(0.0, 0.4))
@@ -279,6 +298,13 @@ def run_beam(case, ctx, rng):
         Mom[2] = rng.uniform(-1, 1) * 0.3
     else:
         Mom = rng.uniform(-1, 1, 3) * 0.3
+    qd = np.zeros(3)
+    qd[:bdim] = rng.uniform(-1, 1, bdim)
+    md = np.zeros(3)
+    if bdim == 2:
+        md[2] = rng.uniform(-1, 1) * 0.3
+    else:
+        md = rng.uniform(-1, 1, 3) * 0.3
 
     def build(R, tt, dR):
         P = [R @ p + tt for p in pts]
@@ -303,6 +329,14 @@ def run_beam(case, ctx, rng):
                 s.add_neumann(tip, [Fg[0], Fg[1], Mg[2]], ["x", "y", "rz"])
             else:
                 s.add_neumann(tip, list(Fg) + list(Mg), un)
+            if case.get("line"):
+                qg = R @ qd
+                mg = dR * (R @ md)
+                allnodes = np.unique(m.groupElem.connect.ravel())
+                if bdim == 2:
+                    s.add_lineLoad(allnodes, [qg[0], qg[1], mg[2]], ["x", "y", "rz"])
+                else:
+                    s.add_lineLoad(allnodes, list(qg) + list(mg), un)
             if case.get("dyn"):
                 s.rho = 2.0
                 s.Solver_Set_Hyperbolic_Algorithm(0.01, algo=AlgoType.newmark)
@@ -337,7 +371,7 @@ def run_beam(case, ctx, rng):
         r1, r2 = u1[used1][:, 3:6], u2[idx][:, 3:6]
         ctx.check("beam-member-response", relerr(r2, detQ * (r1 @ Q.T)), 1e-7, key + "/rotations", et=et)
     # closed form for a single Euler-Bernoulli / Timoshenko cantilever (static): response in member axes
-    if not frame and not case.get("dyn"):
+    if not frame and not case.get("dyn") and not case.get("line"):
         sp = bcm.section_props(b, h)
         A_, G = sp["A"], E / (2 * (1 + v))
         ut = u2[tip2[0]]
@@ -363,5 +397,5 @@ def run_beam(case, ctx, rng):
                 uz = Floc[2] * L1**3 / (3 * E * Iy) - Mloc[1] * L1**2 / (2 * E * Iy) + (Floc[2] * L1 / (kz * G * A_) if theory == "Timo" else 0.0)
                 got_uz = float(ut[:3] @ e3)
                 ctx.check("beam-closed-form", abs(got_uz - uz) / max(abs(uz), sc), 1e-6, key + "/closed-form-z", et=et, uz=uz, got=got_uz)
-    ctx.describe(f"beam/{bdim}D/{et}/{theory}/{cls}/frame={frame}/dyn={bool(case.get('dyn'))}", np.abs(u1).max() > 0, et=et, theory=theory, motion=cls, frame=frame,
+    ctx.describe(f"beam/{bdim}D/{et}/{theory}/{cls}/frame={frame}/dyn={bool(case.get('dyn'))}/line={bool(case.get('line'))}", np.abs(u1).max() > 0, et=et, theory=theory, motion=cls, frame=frame,
                  detQ=detQ, direction=Q[:, 0])
